@@ -313,6 +313,36 @@ def g_join2(env, v, n, perm):
     return {"result": [x + y for x, y in zip(A, B)]}
 
 
+def g_gather2(env, v, perm):
+    """the elements of a flat cross product (2 x 2, tags 0.i.j) reach a transformer and then a
+    depth-2 gather in a solver-chosen completion order `perm` (jobs of the scattered step finishing
+    out of order); the gathered list must be in tag (row-major) order whatever the order."""
+    Status, Token, Transformer, ListToken, TerminationToken = _imports()
+    from streamflow.workflow.step import GatherStep
+
+    wf = env.wf
+    pa, ps, psize, pout = (wf.create_port(name=x) for x in ("a", "s", "size", "out"))
+    t = _mk_transformer(env, "/inc", lambda x: x + 1, ["a"])
+    t.add_input_port("a", pa)
+    t.add_output_port("out", ps)
+    ga = wf.create_step(cls=GatherStep, name="/ga", size_port=psize, depth=2)
+    ga.add_input_port("x", ps)
+    ga.add_output_port("x", pout)
+    wf.output_ports["result"] = pout.name
+    tags = ["0.0.0", "0.0.1", "0.1.0", "0.1.1"]
+    order = []
+    for k in range(4):
+        for i in range(4):
+            if perm[k] == i and i not in order:
+                order.append(i)
+    for i in range(4):
+        if i not in order:
+            order.append(i)
+    env.inputs.append((pa, [Token(value=v[i], tag=tags[i]) for i in order]))
+    env.inputs.append((psize, [Token(value=4, tag="0")]))
+    return {"result": [v[i] + 1 for i in range(4)]}
+
+
 def g_bcast(env, v, n):
     """a scattered input x joined (dot product) with TWO non-scattered inputs y, z (tag '0'),
     as the CWL translator builds a step with one scatter input and two plain inputs."""
@@ -531,7 +561,7 @@ def _prov_ok(step, tok, rec, env):
         return rec == sorted(t.persistent_id for t in src)
     if isinstance(step, GatherStep):
         size = [t for t in step.get_size_port().token_list if not isinstance(t, TerminationToken) and t.tag == tok.tag]
-        elems = [t for t in step.get_input_port().token_list if not isinstance(t, TerminationToken) and t.tag.rsplit(".", 1)[0] == tok.tag]
+        elems = [t for t in step.get_input_port().token_list if not isinstance(t, TerminationToken) and ".".join(t.tag.split(".")[: -step.depth]) == tok.tag]
         return rec == sorted(t.persistent_id for t in size + elems)
     # transformers, combinators, schedule/execute steps: the inputs carrying the same tag
     if rec == _same_tag_inputs(step, tok.tag):
